@@ -138,6 +138,11 @@ func propC16Fen(c fenCase, o *hx.Obs) *hx.Failure {
 	// "a legal position's FEN" = standard text: fields separated by single spaces (tabs / runs of
 	// spaces are not FEN; the engine may reject them)
 	legalRef := rerr == nil && ref.Validate() == nil && strings.Join(strings.Fields(in), " ") == strings.TrimSpace(in) && !strings.ContainsAny(in, "\t\n\r")
+	// clocks and move numbers beyond anything a game can reach (the 75-move rule bounds a game at below 9000
+	// moves) do not belong to a legal position: such a FEN may be rejected or accepted, but must round-trip if accepted
+	if legalRef && (ref.Half > 1000 || ref.Full > 100000) {
+		legalRef = false
+	}
 	if rerr != nil || !legalRef {
 		o.NT("")
 		o.Label("input-not-a-legal-position:" + cls)
@@ -244,11 +249,11 @@ func mutateFenKind(t *rapid.T, fen string, kind int) string {
 		}
 	case 8: // numbers
 		if len(f) > 4 {
-			f[4] = rapid.SampledFrom([]string{"-1", "100", "99999999999999999999", "x", "1.5", "0x10", "+3", "007"}).Draw(t, "half")
+			f[4] = rapid.SampledFrom([]string{"-1", "100", "99999999999999999999", "x", "1.5", "0x10", "+3", "007", "2147483647", "4294967296", "4611686018427387904", "9223372036854775807", "9223372036854775806"}).Draw(t, "half")
 		}
 	case 9:
 		if len(f) > 5 {
-			f[5] = rapid.SampledFrom([]string{"-1", "0", "99999999999999999999", "x", "1e3", "2147483647", "4294967296"}).Draw(t, "full")
+			f[5] = rapid.SampledFrom([]string{"-1", "0", "99999999999999999999", "x", "1e3", "2147483647", "4294967296", "4611686018427387903", "4611686018427387904", "4611686018427387905", "9223372036854775807", "1073741824", "1073741825"}).Draw(t, "full")
 		}
 	case 10: // drop trailing fields
 		f = f[:1+pick(len(f), "keep")]
@@ -326,6 +331,15 @@ func TestC16(t *testing.T) {
 		hx.Enum(r, "fen-fuzz-crasher", false, func(yield func(fenCase) bool) { yield(fenCase{Input: string(b)}) }, propC16Fen)
 		return
 	}
+	// saved failing inputs, kept as regression cases
+	hx.Enum(r, "fen-regressions", false, func(yield func(fenCase) bool) {
+		for _, f := range []string{"4k3/8/8/8/8/8/8/4K3 w - - 0 4611686018427387904", "4k3/8/8/8/8/8/8/4K3 b - - 0 9223372036854775807", "4k3/8/8/8/8/8/8/4K3 w - - 9223372036854775807 1",
+			"4k3/8/8/8/8/8/8/4K3 w - - 4611686018427387904 4611686018427387903", "4k3/8/8/8/8/8/8/4K3 | - - 0 1", "4k3/8/8/8/8/8/8/4K3 w - - 0 1073741824", "4k3/8/8/8/8/8/8/4K3 b - - 1073741824 1073741824"} {
+			if !yield(fenCase{Input: f}) {
+				return
+			}
+		}
+	}, propC16Fen)
 	hx.Sub(r, "fen-mutated", r.N(30000, 300000), func(t *rapid.T) fenCase {
 		p := hx.GenPosition(t)
 		fen := p.FEN()
@@ -382,7 +396,8 @@ func FuzzC16Fen(f *testing.F) {
 	for _, s := range hx.SeedFENs[:40] {
 		f.Add(s)
 	}
-	for _, s := range []string{"rnbqkbnrr/pppppppp/8/8/8/8/PPPPPPPP/RNBQKBNR w KQkq - 0 1", "9/8/8/8/8/8/8/8 w", "8/8/8/8/8/8/8/8/8 w - -", "4k3/8/8/8/8/8/8/4K3 w - e1 0 1", "k7/8/8/8/8/8/8/8 w - - 0 1", "", " ", "/", "8/b7/6P1/6R1/2K5/8/P7/R3kn2", "4k3/8/8/8/8/8/8/4RK2 w - - 0 1", "8/8/8/8/8/8/8/K1k5 b - - -1 -1"} {
+	for _, s := range []string{"rnbqkbnrr/pppppppp/8/8/8/8/PPPPPPPP/RNBQKBNR w KQkq - 0 1", "9/8/8/8/8/8/8/8 w", "8/8/8/8/8/8/8/8/8 w - -", "4k3/8/8/8/8/8/8/4K3 w - e1 0 1", "k7/8/8/8/8/8/8/8 w - - 0 1", "", " ", "/", "8/b7/6P1/6R1/2K5/8/P7/R3kn2", "4k3/8/8/8/8/8/8/4RK2 w - - 0 1", "8/8/8/8/8/8/8/K1k5 b - - -1 -1",
+		"4k3/8/8/8/8/8/8/4K3 w - - 0 4611686018427387904", "4k3/8/8/8/8/8/8/4K3 b - - 0 9223372036854775807", "4k3/8/8/8/8/8/8/4K3 w - - 9223372036854775807 1"} {
 		f.Add(s)
 	}
 	f.Fuzz(func(t *testing.T, s string) {
